@@ -1,7 +1,439 @@
-"""C17 -- dates: comparison is chronological regardless of offset (facet; strftime facets: see DESIGN.md)."""
+"""C17 -- dates: comparison is chronological regardless of offset (Kani), and strftime directives mean what they say (E2).
+
+strftime() is executed from MIR on format strings '%' flags* width? directive with symbolic flags, a symbolic width digit and
+a timestamp whose accessors (year, month, ..., offset) return symbolic values within the ranges the `time` crate documents.
+The output (a string whose digits are expressions of the field values) is compared with a declarative reference of each
+directive (Ruby strftime semantics as documented in strftime.rs and the property)."""
+import itertools
+import z3
+from mirsym.exec import Executor, State, Unsupported
+from mirsym.values import *
+from mirsym.models.timem import symenum
+from mirsym.models.strings import ch_expr, valid_char
+from checks.common import *
+from checks.C13 import eq_chars
 from vlib import kani_runner
 from checks.kani_specs import C17_SPECS
 
+FIELDS = {
+    # accessor: (rust type, lo, hi)
+    'year': ('i32', 1, 9999), 'day': ('u8', 1, 31), 'hour': ('u8', 0, 23), 'minute': ('u8', 0, 59), 'second': ('u8', 0, 59), 'nanosecond': ('u32', 0, 999_999_999),
+    'ordinal': ('u16', 1, 366), 'unix_timestamp': ('i64', -99_999_999_999, 99_999_999_999), 'sunday_based_week': ('u8', 0, 53), 'monday_based_week': ('u8', 0, 53),
+    'month': ('u8', 1, 12), 'weekday': ('u8', 0, 6), 'iso_year': ('i32', 1, 9999), 'iso_week': ('u8', 1, 53),
+    'off_h': ('i8', -25, 25), 'off_m': ('i8', -59, 59), 'off_s': ('i8', -59, 59),
+}
+MONTHS = ['January', 'February', 'March', 'April', 'May', 'June', 'July', 'August', 'September', 'October', 'November', 'December']
+DAYS = ['Monday', 'Tuesday', 'Wednesday', 'Thursday', 'Friday', 'Saturday', 'Sunday']
+
+
+def fvar(name):
+    ty = FIELDS[name][0]
+    return z3.BitVec('ts_' + name, INT_TYPES[ty][0])
+
+
+def fval(name, W=None):
+    """the field as a signed expression of W bits (32 for everything but the unix timestamp)"""
+    ty = FIELDS[name][0]; bits, sg = INT_TYPES[ty]
+    if W is None: W = 64 if bits == 64 else 32
+    v = fvar(name)
+    if bits == W: return v
+    return z3.SignExt(W - bits, v) if sg else z3.ZeroExt(W - bits, v)
+
+
+def field_constraints():
+    cs = []
+    for n, (ty, lo, hi) in FIELDS.items():
+        v = fval(n); cs.append(z3.And(v >= lo, v <= hi))
+    # an offset has one sign: hours, minutes and seconds are all <= 0 or all >= 0
+    h, m, s = fval('off_h'), fval('off_m'), fval('off_s')
+    cs.append(z3.Or(z3.And(h >= 0, m >= 0, s >= 0), z3.And(h <= 0, m <= 0, s <= 0)))
+    return cs
+
+
+def ts_object():
+    def get(st, name):
+        log_call(st, 'ts', name)
+        return Int(fvar(name), FIELDS[name][0])
+    def off_handler(ctx, me, args, st):
+        m = method_of(ctx.callee)
+        h, mi, s = fval('off_h'), fval('off_m'), fval('off_s')
+        if m == 'is_negative': return ret(st, Bool(z3.Or(h < 0, mi < 0, s < 0)))
+        if m == 'whole_hours': return ret(st, get(st, 'off_h'))
+        if m == 'minutes_past_hour': return ret(st, get(st, 'off_m'))
+        if m == 'seconds_past_minute': return ret(st, get(st, 'off_s'))
+        return None
+    def handler(ctx, me, args, st):
+        m = method_of(ctx.callee)
+        if m in ('year', 'day', 'hour', 'minute', 'second', 'nanosecond', 'ordinal', 'unix_timestamp', 'sunday_based_week', 'monday_based_week'):
+            return ret(st, get(st, m))
+        if m == 'month': return ret(st, symenum('Month', get(st, 'month')))
+        if m == 'weekday': return ret(st, symenum('Weekday', get(st, 'weekday')))
+        if m == 'to_iso_week_date': return ret(st, Tup([get(st, 'iso_year'), get(st, 'iso_week'), symenum('Weekday', get(st, 'weekday'))]))
+        if m == 'offset': return ret(st, Abs('utcoffset', off_handler))
+        return None
+    return Abs('timestamp', handler)
+
+
+# ---------------------------------------------------------------- declarative reference
+def c32(e):
+    return e if e.size() == 32 else z3.Extract(31, 0, e)
+
+
+def dec_rows(val, lo, hi):
+    """[(cond, negative, digit chars)] for a 64-bit signed expression within [lo, hi]"""
+    rows = []
+    maxd = len(str(max(abs(lo), abs(hi))))
+    for neg in ((False, True) if lo < 0 else (False,)):
+        mag = -val if neg else val
+        for d in range(1, maxd + 1):
+            cond = z3.And((val < 0) if neg else (val >= 0), mag >= (10 ** (d - 1) if d > 1 else 0), mag < 10 ** d)
+            digs = [c32(z3.URem(z3.UDiv(mag, z3.BitVecVal(10 ** k, mag.size())), z3.BitVecVal(10, mag.size()))) + 48 for k in range(d - 1, -1, -1)]
+            rows.append((cond, neg, digs))
+    return rows
+
+
+NUMERIC = {
+    # directive: (value expr builder, lo, hi, default width, default space padding?)
+    'Y': (lambda: fval('year'), 1, 9999, 4, False), 'C': (lambda: z3.UDiv(fval('year'), z3.BitVecVal(100, 32)), 0, 99, 2, False), 'y': (lambda: z3.URem(fval('year'), z3.BitVecVal(100, 32)), 0, 99, 2, False),
+    'm': (lambda: fval('month'), 1, 12, 2, False), 'd': (lambda: fval('day'), 1, 31, 2, False), 'e': (lambda: fval('day'), 1, 31, 2, True),
+    'w': (lambda: z3.URem(fval('weekday') + 1, z3.BitVecVal(7, 32)), 0, 6, 0, False), 'u': (lambda: fval('weekday') + 1, 1, 7, 0, False),
+    'U': (lambda: fval('sunday_based_week'), 0, 53, 2, False), 'W': (lambda: fval('monday_based_week'), 0, 53, 2, False),
+    'G': (lambda: fval('iso_year'), 1, 9999, 4, False), 'g': (lambda: z3.URem(fval('iso_year'), z3.BitVecVal(100, 32)), 0, 99, 2, False), 'V': (lambda: fval('iso_week'), 1, 53, 2, False),
+    'j': (lambda: fval('ordinal'), 1, 366, 3, False), 'H': (lambda: fval('hour'), 0, 23, 2, False), 'k': (lambda: fval('hour'), 0, 23, 2, True),
+    'I': (lambda: h12(), 1, 12, 2, False), 'l': (lambda: h12(), 1, 12, 2, True), 'M': (lambda: fval('minute'), 0, 59, 2, False), 'S': (lambda: fval('second'), 0, 59, 2, False),
+    's': (lambda: fval('unix_timestamp'), -99_999_999_999, 99_999_999_999, 0, False),
+}
+
+
+def h12():
+    h = fval('hour')
+    return z3.If(z3.URem(h, 12) == 0, z3.BitVecVal(12, 32), z3.URem(h, 12))
+
+
+def lit(s): return [ord(c) for c in s]
+
+
+def name_rows(var, names, cut=None):
+    return [(fval(var) == i + (1 if var == 'month' else 0), lit(n[:cut] if cut else n)) for i, n in enumerate(names)]
+
+
+def reference(directive, flags, width):
+    """[(cond, expected chars)] or None when the reference does not cover this combination.
+    flags: list of concrete flag chars in order; width: None or a z3 64-bit expression (1..99) or int"""
+    no_pad = '-' in flags
+    style = 'default'
+    for f in flags:
+        if f == '_': style = 'space'
+        elif f == '0': style = 'zero'
+    casing = 'default'
+    for f in flags:
+        if f == '^': casing = 'upper'
+        elif f == '#': casing = 'change'
+    def padded(body_len, padchar, w_default, count_rows):
+        pass
+    widths = [None] if width is None else list(range(1, 20))
+    rows = []
+    def with_width(f):
+        """f(w:int or None) -> [(cond, chars)]; conjoin with width == w"""
+        if width is None: return f(None)
+        out = []
+        for w in range(1, 20):
+            for c, chars in f(w): out.append((z3.And(width == w, c), chars))
+        return out
+    if directive in NUMERIC:
+        mk, lo, hi, defw, space_default = NUMERIC[directive]
+        val = mk()
+        sp = (style == 'space') or (style == 'default' and space_default)
+        def f(w):
+            out = []
+            for cond, neg, digs in dec_rows(val, lo, hi):
+                sign = lit('-') if neg else []
+                if no_pad: out.append((cond, sign + digs)); continue
+                tw = w if w is not None else defw + (1 if neg else 0)
+                pad = max(tw - len(sign) - len(digs), 0)
+                out.append((cond, ([32] * pad + sign + digs) if sp else (sign + [48] * pad + digs)))
+            return out
+        return with_width(f)
+    if directive in 'aAbBh':
+        base = name_rows('weekday', DAYS, 3) if directive == 'a' else name_rows('weekday', DAYS) if directive == 'A' else name_rows('month', MONTHS, 3) if directive in 'bh' else name_rows('month', MONTHS)
+        def f(w):
+            out = []
+            for cond, chars in base:
+                s = [ord(chr(c).upper()) for c in chars] if casing != 'default' else chars
+                pad = 0 if (w is None or no_pad) else max(w - len(s), 0)
+                out.append((cond, [48 if style == 'zero' else 32] * pad + s))
+            return out
+        return with_width(f)
+    if directive in 'pP':
+        if (directive == 'P' and casing == 'change'): return None
+        upper = (directive == 'p' and casing != 'change') or (directive == 'P' and casing == 'upper')
+        am = fval('hour') < 12
+        def f(w):
+            out = []
+            for cond, s in ((am, 'AM' if upper else 'am'), (z3.Not(am), 'PM' if upper else 'pm')):
+                pad = 0 if (w is None or no_pad) else max(w - 2, 0)
+                out.append((cond, [48 if style == 'zero' else 32] * pad + lit(s)))
+            return out
+        return with_width(f)
+    if directive in '%nt':
+        ch = {'%': '%', 'n': '\n', 't': '\t'}[directive]
+        def f(w):
+            pad = 0 if (w is None or no_pad) else max(w - 1, 0)
+            return [(z3.BoolVal(True), [48 if style == 'zero' else 32] * pad + lit(ch))]
+        return with_width(f)
+    if directive in 'LN':
+        nanos = fval('nanosecond')
+        def f(w):
+            n = w if w is not None else (3 if directive == 'L' else 9)
+            # the leading n digits of the 9-digit nanosecond: the decimal digits of floor(nanos / 10^(9-n)), zero-padded to n; beyond 9 digits zeros follow
+            q = z3.UDiv(nanos, z3.BitVecVal(10 ** (9 - n), 32)) if n < 9 else nanos
+            k = min(n, 9)
+            digs = [z3.URem(z3.UDiv(q, z3.BitVecVal(10 ** j, 32)), z3.BitVecVal(10, 32)) + 48 for j in range(k - 1, -1, -1)]
+            return [(z3.BoolVal(True), digs + [48] * max(n - 9, 0))]
+        return with_width(f)
+    if directive in ('z', ':z', '::z', 'Z'):
+        if flags and any(f in '-_' for f in flags): return None
+        h, m, s = fval('off_h'), fval('off_m'), fval('off_s')
+        neg = z3.Or(h < 0, m < 0, s < 0)
+        def two(v): return [z3.URem(z3.UDiv(v, z3.BitVecVal(10, 32)), z3.BitVecVal(10, 32)) + 48, z3.URem(v, z3.BitVecVal(10, 32)) + 48]
+        ah, am, as_ = z3.If(h < 0, -h, h), z3.If(m < 0, -m, m), z3.If(s < 0, -s, s)
+        def f(w):
+            tail = (lit(':') if directive != 'z' else []) + two(am) + ((lit(':') + two(as_)) if directive == '::z' else [])
+            body_len = 1 + 2 + len(tail)
+            pad = 0 if w is None else max(w - body_len, 0)
+            return [(neg, lit('-') + [48] * pad + two(ah) + tail), (z3.Not(neg), lit('+') + [48] * pad + two(ah) + tail)]
+        return with_width(f)
+    COMPOSITE = {'F': ['Y', '-', 'm', '-', 'd'], 'R': ['H', ':', 'M'], 'T': ['H', ':', 'M', ':', 'S'], 'X': ['H', ':', 'M', ':', 'S'], 'D': ['m', '/', 'd', '/', 'y'], 'x': ['m', '/', 'd', '/', 'y'],
+                 'r': ['I', ':', 'M', ':', 'S', ' ', 'p'], 'c': ['a', ' ', 'b', ' ', 'e', ' ', 'H', ':', 'M', ':', 'S', ' ', 'Y'], 'v': ['e', '-', '^b', '-', 'Y']}
+    if directive in COMPOSITE:
+        if any(f in '-_' for f in flags): return None
+        parts = []
+        for p in COMPOSITE[directive]:
+            if p in '-:/ ' and len(p) == 1: parts.append([(z3.BoolVal(True), lit(p))])
+            elif p == '^b': parts.append(reference('b', ['^'], None))
+            else: parts.append(reference(p, [], None))
+        combos = []
+        for combo in itertools.product(*parts):
+            cond = z3.And(*[c for c, _ in combo]); chars = [x for _, cs_ in combo for x in cs_]
+            if casing != 'default': chars = [(ord(chr(x).upper()) if isinstance(x, int) else x) for x in chars]
+            combos.append((cond, chars))
+        nominal = {'F': 10, 'R': 5, 'T': 8, 'X': 8, 'D': 8, 'x': 8, 'r': 11, 'c': 24, 'v': 11}[directive]
+        def f(w):
+            pad = 0 if w is None else max(w - nominal, 0)
+            return [(c, [48 if style == 'zero' else 32] * pad + chars) for c, chars in combos]
+        return with_width(f)
+    return None
+
+
+KNOWN = list('YCymdewuUWGgVjHkIlMSsbhBaApPFvRDxTXrc%ntLNzZ') + [':z', '::z']
+FLAGS = '-_0^#'
+
+
+def fmt_shapes(tier):
+    """(flag count, width kind) combinations"""
+    nflags = (0, 1) if tier == 'quick' else (0, 1, 2)
+    widths = (None, 'digit') if tier == 'quick' else (None, 'digit', 'teen')
+    return [(k, w) for k in nflags for w in widths]
+
+
+def run_strftime(ex, P, st, fmt_chars_):
+    fn = P.find(r'^fn strftime\(', 'core')
+    yield from ex.run(fn, [ts_object(), st.ref(StrV(fmt_chars_, 'str'))], st)
+
+
+def model_fmt(m, chars):
+    return ''.join(chr(c) if isinstance(c, int) else chr(m.eval(c, model_completion=True).as_long()) for c in chars)
+
+
+def model_fields(m):
+    out = {}
+    for n, (ty, lo, hi) in FIELDS.items():
+        v = m.eval(fvar(n), model_completion=True)
+        out[n] = v.as_signed_long() if INT_TYPES[ty][1] else v.as_long()
+    return out
+
+
+CANONICAL = [dict(year=2022, month=1, day=2, hour=12, minute=0, second=0, nanosecond=5_000_000, off_h=0, off_m=0),
+             dict(year=2024, month=2, day=29, hour=0, minute=5, second=9, nanosecond=1, off_h=-5, off_m=-30),
+             dict(year=2023, month=12, day=31, hour=23, minute=59, second=59, nanosecond=999_999_999, off_h=14, off_m=0),
+             dict(year=1969, month=7, day=20, hour=13, minute=7, second=3, nanosecond=120_000, off_h=5, off_m=45)]
+
+
+def expected_from_fields(directive, flags, width, fields):
+    """evaluate the declarative reference on concrete (native) field values"""
+    rows = reference(directive, flags, z3.BitVecVal(width, 32) if width is not None else None)
+    if rows is None: return None
+    sub = []
+    for n in FIELDS:
+        key = {'off_h': 'off_h', 'off_m': 'off_m', 'off_s': 'off_s'}.get(n, n)
+        if key in fields:
+            sub.append((fvar(n), z3.BitVecVal(int(fields[key]), fvar(n).size())))
+    for cond, chars in rows:
+        c = z3.simplify(z3.substitute(cond, *sub))
+        if z3.is_true(c):
+            out = ''
+            for x in chars:
+                if isinstance(x, int): out += chr(x)
+                else: out += chr(z3.simplify(z3.substitute(x, *sub)).as_long())
+            return out
+    return None
+
+
+def ob_directives(chk, P):
+    quick = chk.tier == 'quick'
+    with chk.obligation('strftime/directives', 'every known directive prints the documented value of its field: numeric directives as decimal numbers with the documented default width and padding '
+                        '(zero, or space for %e %k %l), `-` removes padding, `_`/`0` choose the padding character, an explicit width overrides the default; names and AM/PM honour ^ and #; '
+                        '%L/%N print the leading digits of the 9-digit nanosecond; %z family prints sign, hours, minutes(, seconds); composites equal their expansion; no panic',
+                        {'format': "'%' + 0..1 (quick) / 0..2 (thorough) flags from -_0^# (solver-chosen) + no width | one symbolic digit 1-9 | (thorough) 1 + a symbolic digit, + each of the known directives",
+                         'timestamp': 'every accessor returns any value in its documented range (year 1..9999, |unix timestamp| < 10^11, offsets within +-25:59:59); relations between fields are not assumed'}) as ob:
+        ex = Executor(P, models_with([])); ex.seed = chk.seed; ex.max_steps = 200000
+        ob.stubs += ['time::OffsetDateTime accessors: symbolic values within documented ranges (abstract timestamp)', 'time::Weekday / Month: enums with a symbolic discriminant']
+        ob.assumptions += ['field ranges as documented by the time crate; fields are independent symbolic values (over-approximation of real timestamps), violations are confirmed on real timestamps natively']
+        for directive in KNOWN:
+            for nflags, wkind in fmt_shapes(chk.tier):
+                if directive in 'cvr' and quick and (nflags, wkind) != (0, None): continue      # many fields: only the plain form in the quick tier
+                if directive in 'YGygC' and quick and wkind is not None: continue              # 64-bit year arithmetic: explicit widths only in the thorough tier
+                if directive in 'sc' and quick: continue                                       # up to 11-digit timestamps / 7 fields: thorough tier
+                st = State()
+                for c in field_constraints(): st.assume(c)
+                fl = [z3.BitVec(f'flag{i}', 32) for i in range(nflags)]
+                for f in fl: st.assume(z3.Or(*[f == ord(x) for x in FLAGS]))
+                wd = z3.BitVec('wdigit', 32)
+                wchars = []; width = None
+                if wkind == 'digit':
+                    st.assume(z3.And(z3.UGE(wd, 49), z3.ULE(wd, 57))); wchars = [wd]; width = wd - 48
+                elif wkind == 'teen':
+                    st.assume(z3.And(z3.UGE(wd, 48), z3.ULE(wd, 57))); wchars = [ord('1'), wd]; width = wd - 48 + 10
+                fmt = [ord('%')] + fl + wchars + lit(directive)
+                refcache = {}
+                for s2, kind, val in run_strftime(ex, P, st, fmt):
+                    ob.paths += 1; ob.reached()
+                    m0 = ob.decide(ex, s2.conds, z3.BoolVal(True))
+                    flags = [chr(m0.eval(f, model_completion=True).as_long()) for f in fl]      # flags are path-concrete (the parser branched on them)
+                    def report(role, what, m):
+                        fs = model_fmt(m, fmt); fields = model_fields(m)
+                        wv = (m.eval(width, model_completion=True).as_long() if width is not None else None)
+                        flg = [chr(m.eval(f, model_completion=True).as_long()) for f in fl]
+                        def conf(r, flg=flg, wv=wv):
+                            if r.get('outcome') == 'panic': return True
+                            if r.get('outcome') != 'ok': return True
+                            exp = expected_from_fields(directive, flg, wv, r.get('fields', {}))
+                            return exp is not None and r.get('output') != exp
+                        sc0 = dict(kind='strftime', fmt=fs, **{k: fields[k] for k in ('year', 'month', 'day', 'hour', 'minute', 'second', 'nanosecond', 'off_h', 'off_m', 'off_s')})
+                        ob.violation(role, f'{what}: format {fs!r} with {fields}', {'format': fs, 'fields': fields}, sc0, conf)
+                        for cf in CANONICAL:       # the abstract fields are independent; also try real calendar dates that separate look-alike fields
+                            ob.violation(role, f'{what}: format {fs!r} (canonical date {cf["year"]}-{cf["month"]}-{cf["day"]})', {'format': fs, 'fields': cf}, dict(kind='strftime', fmt=fs, **cf), conf)
+                    if kind == 'panic':
+                        report(f'strftime/%{directive}/panic', f'strftime panics ({val})', m0); continue
+                    if val.variant != 'Ok':
+                        report(f'strftime/%{directive}/error', f'strftime fails on a well-formed format: {val}', m0); continue
+                    res = list(s2.deref_all(val.items[0]).chars)
+                    key = tuple(flags)
+                    if key not in refcache: refcache[key] = reference(directive, flags, width)
+                    rows = refcache[key]
+                    if rows is None:
+                        ob.decide(ex, s2.conds, z3.BoolVal(False)); continue
+                    good = [z3.And(c, eq_chars(res, chars)) for c, chars in rows if len(chars) == len(res)]
+                    m = ob.decide(ex, s2.conds, z3.Not(z3.Or(*good)) if good else z3.BoolVal(True))
+                    if m is not None:
+                        report(f'strftime/%{directive}/wrong-output', f'strftime prints {model_fmt(m, res)!r}', m)
+            ob.sample({'directive': directive})
+        ob.absorb(ex)
+
+
+def ob_unknown_and_errors(chk, P):
+    with chk.obligation('strftime/unknown-and-malformed', "text outside directives is copied; an unknown directive is echoed unchanged ('%' through the unknown character); a format that ends inside a directive "
+                        "('%', '%5', '%-', '%E') is an error; nothing panics, whatever characters surround or follow the '%'",
+                        {'format': "c0 '%' f? c1 c2 with c0, c1, c2 any Unicode scalar value (or absent) and f an optional flag", 'timestamp': 'abstract, as in strftime/directives'}) as ob:
+        ex = Executor(P, models_with([])); ex.seed = chk.seed; ex.max_steps = 200000
+        known_first = set(ord(k[0]) for k in KNOWN) | set(ord(c) for c in 'EO:') | set(ord(c) for c in FLAGS) | set(range(48, 58))
+        for pre, nflag, post in itertools.product((0, 1), (0, 1), (0, 1, 2)):
+            st = State()
+            for c in field_constraints(): st.assume(c)
+            cs_pre = [z3.BitVec(f'p{i}', 32) for i in range(pre)]
+            fl = [z3.BitVec(f'flag{i}', 32) for i in range(nflag)]
+            cs_post = [z3.BitVec(f'q{i}', 32) for i in range(post)]
+            for c in cs_pre + cs_post: st.assume(valid_char(c))
+            for c in cs_pre: st.assume(c != ord('%'))
+            for f in fl: st.assume(z3.Or(*[f == ord(x) for x in FLAGS]))
+            if cs_post: st.assume(z3.And(*[cs_post[0] != k for k in sorted(known_first)]))      # known directives: see strftime/directives
+            fmt = cs_pre + [ord('%')] + fl + cs_post
+            for s2, kind, val in run_strftime(ex, P, st, fmt):
+                ob.paths += 1; ob.reached()
+                def report(role, what, m):
+                    fs = model_fmt(m, fmt)
+                    ob.violation(role, f'{what}: format {fs!r}', {'format': fs}, dict(kind='strftime', fmt=fs, **CANONICAL[0]),
+                                 (lambda r: r.get('outcome') == 'panic') if 'panic' in role else (lambda r: r.get('outcome') != 'err') if 'accepted' in role else (lambda r, fs=fs: r.get('outcome') != 'ok' or r.get('output') != fs))
+                if kind == 'panic':
+                    m = ob.decide(ex, s2.conds, z3.BoolVal(True))
+                    # prefer an ASCII witness; a panic that needs a multi-byte character is a different role
+                    ma = ob.decide(ex, s2.conds + [z3.ULT(c, 128) for c in cs_pre + cs_post], z3.BoolVal(True))
+                    report('strftime/panic' + ('' if ma is not None else '/multi-byte-character-after-%'), f'strftime panics ({val})', ma if ma is not None else m); continue
+                if post == 0:
+                    # the format ends right after '%' (and flags): must be an error
+                    if val.variant != 'Err': report('strftime/malformed-accepted', f'strftime accepts a format that ends inside a directive: {val}', ob.decide(ex, s2.conds, z3.BoolVal(True)))
+                    else: ob.decide(ex, s2.conds, z3.BoolVal(False))
+                    continue
+                # echo: when the character after the flags is not a known directive/modifier/digit, the output is the format itself
+                unknown = z3.And(*[cs_post[0] != k for k in sorted(known_first)])
+                if val.variant == 'Ok':
+                    res = list(s2.deref_all(val.items[0]).chars)
+                    exp = fmt if post == 1 else None
+                    if post == 2:
+                        # second trailing char: literal unless it is '%' (which would start a new, unfinished directive -> error)
+                        exp = fmt
+                        unknown = z3.And(unknown, cs_post[1] != ord('%'))
+                    m = ob.decide(ex, s2.conds, z3.And(unknown, z3.Not(eq_chars(res, exp))))
+                    if m is not None: report('strftime/unknown-not-echoed', f'strftime prints {model_fmt(m, res)!r}', m)
+                else:
+                    m = ob.decide(ex, s2.conds, unknown if post == 1 else z3.And(unknown, cs_post[1] != ord('%')))
+                    if m is not None: report('strftime/unknown-rejected', f'strftime fails: {val}', m)
+            ob.sample({'shape': (pre, nflag, post)})
+        ob.absorb(ex)
+
+
+def ob_display_subsecond(chk, P):
+    with chk.obligation('DateTime::fmt/sub-second', 'the default printed form of a date-time carries its sub-second part exactly when that part is not zero (so that printing and parsing back denotes the same instant): '
+                        'the format with [subsecond] is chosen iff nanosecond != 0', {'nanosecond': 'any value 0..999999999 (millisecond and microsecond accessors are its quotients)'}) as ob:
+        ex = Executor(P, models_with([])); ex.seed = chk.seed
+        fn = P.find(r'^fn datetime::<impl at crates/core/src/model/scalar/datetime.rs:\d+:1: \d+:\d+>::fmt\(_1: &datetime::DateTime, _2: &mut Formatter', 'core')     # the hand-written impl (derives start in column 5)
+        nanos = fvar('nanosecond')
+        def ts_handler(ctx, me, args, st):
+            m = method_of(ctx.callee)
+            if m == 'nanosecond': return ret(st, Int(nanos, 'u32'))
+            if m == 'microsecond': return ret(st, Int(z3.UDiv(nanos, z3.BitVecVal(1000, 32)), 'u32'))
+            if m == 'millisecond': return ret(st, Int(z3.Extract(15, 0, z3.UDiv(nanos, z3.BitVecVal(1_000_000, 32))), 'u16'))
+            if m == 'format':
+                f = st.deref_all(args[1])
+                log_call(st, 'format', f.tag if isinstance(f, Opaque) else repr(f))
+                return ret(st, Ok(StrV('printed', 'String')))
+            return None
+        def fm_handler(ctx, me, args, st):
+            if method_of(ctx.callee) in ('write_fmt', 'write_str'): return ret(st, Ok(UNIT))
+            return None
+        # the two format descriptions are opaque tokens (their contents belong to the time crate); which one is passed to format() is what is checked
+        from mirsym.models import CONST_MODELS
+        CONST_MODELS['model::scalar::datetime::DATE_TIME_FORMAT'] = lambda st_: Opaque(('FORMAT', 'plain'))
+        CONST_MODELS['model::scalar::datetime::DATE_TIME_FORMAT_SUBSEC'] = lambda st_: Opaque(('FORMAT', 'SUBSEC'))
+        st = State(); st.assume(z3.ULE(nanos, 999_999_999))
+        dt = st.ref(Adt('DateTime', None, [Abs('timestamp', ts_handler)], ['inner']))
+        for s2, kind, val in ex.run(fn, [dt, st.ref(Abs('formatter', fm_handler), True)], st):
+            ob.paths += 1; ob.reached()
+            used = [c[1] for c in calls(s2, 'format')]
+            subsec = bool(used) and 'SUBSEC' in repr(used[0])
+            bad = (nanos == 0) if subsec else (nanos != 0)
+            if kind != 'ret' or len(used) != 1: bad = z3.BoolVal(True)
+            m = ob.decide(ex, s2.conds, bad)
+            if m is not None:
+                nv = m.eval(nanos, model_completion=True).as_long()
+                ob.violation('display/sub-second-' + ('dropped' if not subsec else 'spurious'), f'DateTime with nanosecond {nv} is printed with format {used}', {'nanosecond': nv},
+                             dict(kind='datetime_roundtrip', nanosecond=nv), lambda r: r.get('outcome') != 'ok' or not r.get('same'))
+        ob.absorb(ex)
+
 
 def run(chk):
+    P = chk.program(('core',))
+    ob_display_subsecond(chk, P)
+    ob_unknown_and_errors(chk, P)
+    ob_directives(chk, P)
     kani_runner.obligations(chk, C17_SPECS, chk.tier)
